@@ -12,9 +12,9 @@ from cardutil.cli import print_exception_details
 
 LEVEL = 'fault_enumeration'
 EXHAUSTIVE = True
-TECHNIQUE = 'fault enumeration: n good records x every position k x 13 fault kinds x {VBS, 1014} x 3 codecs, plus Hypothesis message variety; expected record number and raw bytes derived from an independent framing and decoding of the faulty file'
+TECHNIQUE = 'fault enumeration: n good records x every position k x 19 fault kinds x {VBS, 1014} x 3 codecs, plus Hypothesis message variety; expected record number and raw bytes derived from an independent framing and decoding of the faulty file'
 RULE = ('Files of n = 1..6 (thorough 1..12) good IPM records get one fault planted in record k for every k in 1..n: truncated '
-        'record, oversized length, inflated length, non-numeric MTI, undecodable MTI, unconfigured bitmap bit, non-digit length '
+        'record, oversized length, inflated length, record body cut to 1/4/19/20 bytes, header only, garbage body, non-numeric MTI, undecodable MTI, unconfigured bitmap bit, non-digit length '
         'prefix, bad integer, bad date, trailing byte, bad PDS content, bad ICC content, negative length prefix; VBS and 1014; '
         'ascii, latin_1, cp500; message shapes enumerated and drawn by Hypothesis. Oracle: the reference framing of the faulty '
         'file + reference decoding of each record gives k and the raw bytes; IpmReader must deliver records 1..k-1 equal to the '
@@ -27,7 +27,8 @@ ASSUMPTIONS = ['the expected position comes from where the reference framing fin
 PACKAGED = gen_iso.packaged_config()
 CODECS = ['ascii', 'latin_1', 'cp500']
 KINDS = ['truncated', 'oversized-length', 'inflated-length', 'mti-nonnumeric', 'mti-undecodable', 'unconfigured-bit',
-         'nondigit-prefix', 'bad-int', 'bad-date', 'trailing-byte', 'bad-pds', 'bad-icc', 'negative-prefix']
+         'nondigit-prefix', 'bad-int', 'bad-date', 'trailing-byte', 'bad-pds', 'bad-icc', 'negative-prefix',
+         'short-body-1', 'short-body-4', 'short-body-19', 'short-body-20', 'header-only', 'garbage-body']
 
 
 def base_message(i):
@@ -90,6 +91,13 @@ def plant(kind, rec, codec, config):
         return bytes(r), None, None
     if kind == 'trailing-byte':
         return bytes(rec) + b'7', None, None
+    if kind.startswith('short-body-'):
+        # a correctly framed record that is too short to hold MTI + bitmap (20 bytes: a header with a lying bitmap)
+        return bytes(rec[:int(kind.split('-')[-1])]), None, None
+    if kind == 'header-only':
+        return bytes(rec[:20]), None, None
+    if kind == 'garbage-body':
+        return bytes((b * 7 + 13) % 256 for b in rec), None, None
     if kind == 'bad-pds':
         f = next((f for f in frames if f[0] == 'pds_len'), None)
         if not f:
